@@ -174,6 +174,38 @@ pub fn init_shared() {
     }
 }
 
+struct SinkLogger;
+
+impl log::Log for SinkLogger {
+    fn enabled(&self, _m: &log::Metadata<'_>) -> bool {
+        true
+    }
+    fn log(&self, record: &log::Record<'_>) {
+        // format the message (into nothing): the library's log arguments are
+        // evaluated only when a logger at trace level is installed, and they may
+        // dereference allocations
+        use std::fmt::Write;
+        struct Null;
+        impl std::fmt::Write for Null {
+            fn write_str(&mut self, _s: &str) -> std::fmt::Result {
+                Ok(())
+            }
+        }
+        let _t = arena::track_off();
+        let _ = write!(Null, "{}", record.args());
+    }
+    fn flush(&self) {}
+}
+
+static SINK: SinkLogger = SinkLogger;
+
+/// Child side: evaluate (and discard) the library's trace-level log output for
+/// this case, or not.
+pub fn set_trace_logging(on: bool) {
+    let _ = log::set_logger(&SINK);
+    log::set_max_level(if on { log::LevelFilter::Trace } else { log::LevelFilter::Off });
+}
+
 pub fn set_msg(s: &str) {
     let sh = shared();
     let b = s.as_bytes();
